@@ -288,6 +288,15 @@ const c15Quick = 16
 // c15Core is the sub-alphabet whose length-4 lists the thorough tier adds.
 var c15Core = []string{"a", "*", "a/b", "a/*", "**/c", "!a", "!a/b", "!a/b/c", "!**/a", "!c/a"}
 
+// c15SiblingTree has sibling directories whose names are string prefixes of one
+// another without being path prefixes (v, v-c), each holding keep / x.txt, so
+// that "the text of a '!' pattern starts with the directory's path" and "the
+// '!' pattern lies beneath the directory" differ. It is enumerated with its
+// own alphabet, c15SiblingAlphabet.
+var c15SiblingTree = mk("d5", "k.txt", "v/", "v/keep", "v/x.txt", "v/sub/", "v/sub/y.txt", "v-c/", "v-c/keep/", "v-c/keep/d", "v-c/o", "v-c/x.txt")
+
+var c15SiblingAlphabet = []string{"v", "v-c", "!v-c/keep", "!v/keep", "!**/*.txt", "*", "**/keep", "!v-c", "v*", "!*/x.txt"}
+
 var c15Trees = []*tree{
 	mk("d1", "a/", "a/a/", "a/b/", "a/b/a", "a/b/c", "a/c", "b", "c/", "c/a->../b"),
 	mk("d2", "a", "b/", "b/a", "b/b/", "b/b/c", "b/c/", "b/c/c/", "b/c/c/a", "c/"),
@@ -541,10 +550,11 @@ func TestC15(t *testing.T) {
 	defer r.Finish()
 
 	workers := vr.Workers()
-	sls := newSlots(t, c15Trees, workers)
+	fixtures := append(append([]*tree{}, c15Trees...), c15SiblingTree)
+	sls := newSlots(t, fixtures, workers)
 	treeByName := map[string]*tree{}
 	fullByName := map[string]*core.Entry{}
-	for _, tr := range c15Trees {
+	for _, tr := range fixtures {
 		treeByName[tr.Name] = tr
 		full, err := c15Scan(sls.all[0].roots[tr.Name], nil)
 		if err != nil {
@@ -627,12 +637,12 @@ func TestC15(t *testing.T) {
 			}
 		}
 	}
-	r.Rule(fmt.Sprintf("every list of <= %d patterns over a %d-pattern Docker alphabet (thorough: plus every list of 4 over the 10-pattern core; %d lists in all) x %d fixed on-disk trees, each through the real docker.NewIgnorer + core.Scan, then x ancestor {nil, everything synchronized before, previous result} x beta {identical, empty} through the real core.ReifyPhantomDirectories; "+
+	r.Rule(fmt.Sprintf("every list of <= %d patterns over a %d-pattern Docker alphabet (thorough: plus every list of 4 over the 10-pattern core; %d lists in all) x %d fixed on-disk trees, plus every list of <= 3 (thorough: 4) patterns over the 10-pattern sibling-prefix alphabet on tree d5 (directories v and v-c), each through the real docker.NewIgnorer + core.Scan, then x ancestor {nil, everything synchronized before, previous result} x beta {identical, empty} through the real core.ReifyPhantomDirectories; "+
 		"compared with the reference walk (frozen moby matcher MatchesUsingParentResults + moby's prefix rule for descending into excluded directories). "+
 		"non-trivial = the reference excludes at least one entry of the tree; distinct by (list, tree, ancestor, beta)",
 		maxLen, len(alphabet), len(all), len(c15Trees)))
 	r.Assume(
-		"pattern alphabet: "+strings.Join(alphabet, " ")+"; core sub-alphabet: "+strings.Join(c15Core, " "),
+		"pattern alphabet: "+strings.Join(alphabet, " ")+"; core sub-alphabet: "+strings.Join(c15Core, " ")+"; sibling-prefix alphabet (tree d5 only): "+strings.Join(c15SiblingAlphabet, " "),
 		"trusted base: the frozen copy of the vendored moby pattern matcher (upstream functions only) decides what 'Docker would include'; Docker's walk is moby pkg/archive TarWithOptions (descend into an excluded directory only if the text of some '!' pattern has it as a path prefix), not buildkit/fsutil's variant for wildcard exceptions",
 		"the .dockerignore preprocessing (trim, clean, strip leading slash) is re-implemented in the check",
 		"'synchronized' = present in ReifyPhantomDirectories(ancestor, scan, beta) and reachable from the root through tracked directories; both endpoints hold the same tree or beta is empty (content present only on the other endpoint is not enumerated)",
@@ -649,6 +659,16 @@ func TestC15(t *testing.T) {
 		for _, tr := range c15Trees {
 			jobs = append(jobs, job{li, tr})
 		}
+	}
+	// Sibling-prefix family: every list of <= 3 (thorough: <= 4) patterns over
+	// c15SiblingAlphabet on c15SiblingTree.
+	siblingLen := 3
+	if vr.Thorough() {
+		siblingLen = 4
+	}
+	siblingLists := lists(len(c15SiblingAlphabet), siblingLen)
+	for _, li := range siblingLists {
+		jobs = append(jobs, job{pick(c15SiblingAlphabet, li), c15SiblingTree})
 	}
 	failing := map[string]*c15Failure{}
 	var failMu sync.Mutex
@@ -795,6 +815,7 @@ func TestC15(t *testing.T) {
 	r.Set("violating_pairs_unexplained_but_dominated_by_a_reported_sublist", dominated)
 	r.Set("trusted_base", []string{"verif/refs/patternmatcher (frozen copy of the vendored moby pattern matcher; upstream functions New, MatchesUsingParentResults, Exclusions, Patterns only)"})
 	r.Set("pattern_lists", len(all))
+	r.Set("sibling_prefix_lists", len(siblingLists))
 	r.Set("scans", len(jobs))
 	for _, c := range []c15Case{
 		{Patterns: []string{"a", "!a/b/c"}, Tree: "d1", Ancestor: "nil", Beta: "same"},
